@@ -568,7 +568,12 @@ fn remove_dnssec(
                 ob.set_udp_payload_size(opt.udp_payload_size());
                 ob.set_version(opt.version());
                 for o in opt.opt().iter() {
-                    let x: AllOptData<_, _> = o.expect("should not fail");
+                    // The option comes from the network. Leave out
+                    // what cannot be parsed.
+                    let x: AllOptData<_, _> = match o {
+                        Ok(x) => x,
+                        Err(_) => continue,
+                    };
                     ob.push(&x)?;
                 }
                 Ok(())
@@ -651,7 +656,12 @@ fn add_opt(
                 ob.set_udp_payload_size(opt.udp_payload_size());
                 ob.set_version(opt.version());
                 for o in opt.opt().iter() {
-                    let x: AllOptData<_, _> = o.expect("should not fail");
+                    // The option comes from the network. Leave out
+                    // what cannot be parsed.
+                    let x: AllOptData<_, _> = match o {
+                        Ok(x) => x,
+                        Err(_) => continue,
+                    };
                     ob.push(&x).expect("should not fail");
                 }
                 ob.push(&ede).expect("should not fail");
@@ -698,7 +708,12 @@ fn serve_fail(
                 ob.set_udp_payload_size(opt.udp_payload_size());
                 ob.set_version(opt.version());
                 for o in opt.opt().iter() {
-                    let x: AllOptData<_, _> = o.expect("should not fail");
+                    // The option comes from the network. Leave out
+                    // what cannot be parsed.
+                    let x: AllOptData<_, _> = match o {
+                        Ok(x) => x,
+                        Err(_) => continue,
+                    };
                     ob.push(&x).expect("should not fail");
                 }
                 if let Some(ede) = opt_ede {
